@@ -22,7 +22,7 @@ cd "$ROOT/harness"
 RACE=""
 for p in "$@"; do [ "$p" = C18 ] && RACE=1; done
 go build -modfile="$TMP/go.mod" -tags verif -o "$TMP/vcheck" ./cmd/vcheck || { echo "HARNESS-BUILD-FAILED"; exit 2; }
-for p in "$@"; do { [ "$p" = C19 ] || [ "$p" = C20 ]; } && { go build -modfile="$TMP/go.mod" -o "$TMP/shovel" github.com/indexsupply/shovel/cmd/shovel || exit 2; export VERIF_SHOVEL_BIN="$TMP/shovel"; }; done
+for p in "$@"; do { [ "$p" = C19 ] || [ "$p" = C20 ] || [ "$p" = C16 ]; } && { go build -modfile="$TMP/go.mod" -o "$TMP/shovel" github.com/indexsupply/shovel/cmd/shovel || exit 2; export VERIF_SHOVEL_BIN="$TMP/shovel"; }; done
 [ -n "$RACE" ] && { go build -race -modfile="$TMP/go.mod" -tags verif -o "$TMP/vcheck-race" ./cmd/vcheck || exit 2; }
 if [ -n "$RACE" ]; then
   # C18's first-use children: plain build with the JSON library's decoder publication stretched (see run.sh)
